@@ -174,11 +174,96 @@ def explore_subset(subset, bound, scratch, t, label, max_exec=4000):
     return stats
 
 
+# -- two configurations in one run (state shared between configurations in the serial process) ------
+TWO_CSV = None
+
+
+def two_config_csv(scratch_root):
+    """A CSV with two configurations that differ only in name and pixel aspect ratio."""
+    global TWO_CSV
+    if TWO_CSV is None:
+        import csv as _csv
+
+        rows = list(_csv.reader(open(CSV)))
+        col = None
+        for r in rows:
+            if r and r[0].strip() == "name":
+                col = [c.strip() for c in r].index(CODEC)
+        out = []
+        for r in rows:
+            if not r or not r[0].strip() or r[0].strip().startswith("#"):
+                continue
+            k = r[0].strip()
+            v = r[col] if col < len(r) else ""
+            a, b = v, v
+            if k == "name":
+                a, b = "cfg_a", "cfg_b"
+            elif k == "pixel_aspect_ratio_numer":
+                b = "4"
+            elif k == "pixel_aspect_ratio_denom":
+                b = "3"
+            out.append([k, a, b])
+        path = os.path.join(scratch_root, "two_configs.csv")
+        with open(path, "w", newline="") as f:
+            _csv.writer(f).writerows(out)
+        TWO_CSV = path
+    return TWO_CSV
+
+
+_TWO_WORKERS = None
+
+
+def two_config_workers(csv_path):
+    global _TWO_WORKERS
+    if _TWO_WORKERS is None:
+        import logging
+
+        logging.disable(logging.WARNING)
+        c24_runner.swap()
+        from vc2_conformance.scripts.vc2_test_case_generator import cli, worker
+
+        buf = io.StringIO()
+        with contextlib.redirect_stdout(buf):
+            rc = cli.main([csv_path, "--parallel", "--output", ROOT])
+        if rc != 0:
+            raise RuntimeError("generator --parallel returned %r" % rc)
+        _TWO_WORKERS = [worker.decode(line.split(" ", 1)[1].strip()) for line in buf.getvalue().splitlines() if line.strip()]
+    return _TWO_WORKERS
+
+
+def run_two_config_worker(i, csv_path, scratch, t):
+    fn = two_config_workers(csv_path)[i]
+    d = os.path.join(scratch, "tw-%d" % i)
+    os.makedirs(d)
+    ops, status = procsched.record_ops(fn, d, ROOT)
+    if status != 0:
+        t.violation("two-configuration CSV: worker %d fails when run alone" % i, {"two_config_worker": i})
+    t.extra = ("worker", i, tree_digest(os.path.join(d, ROOT)))
+    t.count("two_config_worker_runs")
+
+
+def run_two_config_serial(csv_path, scratch, t):
+    d = os.path.join(scratch, "ts")
+    os.makedirs(d)
+    env = dict(os.environ)
+    env["PYTHONDONTWRITEBYTECODE"] = "1"
+    r = subprocess.run([sys.executable, os.path.join(mc.VERIF_DIR, "props", "c24_runner.py"), csv_path, "--output", ROOT], cwd=d, env=env, capture_output=True, text=True, timeout=1800)
+    if r.returncode != 0:
+        t.violation("two-configuration CSV: serial generator exited %d: %s" % (r.returncode, r.stderr[-300:]), {"two_config_serial": True})
+        return
+    t.extra = ("serial", None, tree_digest(os.path.join(d, ROOT)))
+    t.count("two_config_serial_runs")
+
+
 def _shard(arg):
     kind, payload = arg
     t = Tally()
     scratch = tempfile.mkdtemp(prefix="verif-c24-")
     try:
+        if kind == "two-worker":
+            run_two_config_worker(payload[0], payload[1], scratch, t)
+        elif kind == "two-serial":
+            run_two_config_serial(payload, scratch, t)
         if kind == "subset":
             subset, bound, label, cap = payload
             explore_subset(tuple(subset), bound, scratch, t, label, cap)
@@ -297,19 +382,34 @@ def run(ctx):
             structured.append(("first-%s" % ws[i][0], ("first", i)))
         for name, spec in structured:
             shards.append(("structured", (name, spec)))
+        csv2 = two_config_csv(scratch)
+        n_two = len(two_config_workers(csv2))
+        two_shards = [("two-serial", csv2)] + [("two-worker", (i, csv2)) for i in range(n_two)]
         seeds = (1, 2) if quick else (1, 2, 3, 4, 12345)
         results = []
         import multiprocessing
 
         mctx = multiprocessing.get_context("fork")
         with mctx.Pool(min(pool.NPROC, len(shards) + len(seeds))) as p:
-            results = p.map(_shard_safe, shards + [("hashseed", s) for s in seeds], chunksize=1)
+            results = p.map(_shard_safe, two_shards + shards + [("hashseed", s) for s in seeds], chunksize=1)
         trees = {0: serial}
+        two_serial, two_union = None, {}
         for r in results:
-            if r.extra:
+            if r.extra and r.extra[0] == "serial":
+                two_serial = r.extra[2]
+            elif r.extra and r.extra[0] == "worker":
+                for k, v in r.extra[2].items():
+                    two_union[k] = v if two_union.get(k, v) == v else "CONFLICT"
+            elif r.extra:
                 trees[r.extra[0]] = r.extra[1]
-                r.extra = None
+            r.extra = None
             total.merge(r)
+        for k in [k for k in two_union if k.endswith("/")]:
+            if any(o != k and o.startswith(k) for o in two_union):
+                del two_union[k]
+        if two_serial is not None and two_serial != two_union:
+            diff = sorted(set(two_serial.items()) ^ set(two_union.items()))[:4]
+            total.violation("two-configuration CSV: the serial run differs from the workers run one by one in fresh processes: %r" % (diff,), {"two_config": True})
         for s, tr in sorted(trees.items()):
             if tr is not None and serial is not None and tr != serial:
                 diff = sorted(set(tr.items()) ^ set(serial.items()))[:4]
@@ -327,6 +427,7 @@ def run(ctx):
                 "triples_preemption_bound_2": [[ws[i][0] for i in tr] for tr in triples],
                 "structured_all_worker_schedules": [n for n, _ in structured],
                 "hash_seeds": [0] + list(seeds),
+                "two_configuration_csv": "serial run vs %d workers each run alone (configurations differing only in name and pixel aspect ratio)" % n_two,
                 "execution_cap_per_subset": cap,
                 "capped_subsets": total.n["capped_subsets"],
                 "distinct_output_trees": total.ndistinct("trees"),
@@ -370,7 +471,7 @@ def replay_case(case):
                 return ["workers failed / deadlocked under the schedule"]
             got = tree_digest(os.path.join(d, ROOT))
             return [] if got == expect else ["output tree differs from the serial run"]
-        if "structured" in case or "hashseed" in case or "alone" in case or "serial_vs_union" in case:
+        if "structured" in case or "hashseed" in case or "alone" in case or "serial_vs_union" in case or "two_config" in case or "two_config_worker" in case or "two_config_serial" in case:
             return ["(re-run ./check C24 to reproduce this whole-generator case)"]
         return []
     finally:
